@@ -16,6 +16,8 @@ structure Good (c : Ctx) (f : Feat) (h gid : Int) (as : List Area) : Prop where
   drawn : (∃ a, as = [a] ∧ a.group = 0 ∧ Drawn.shown c.L (.whole a) = some (expectedShown f)) ∨
     (∃ a b, as = [a, b] ∧ a.group = gid ∧ b.group = gid ∧
       Drawn.shown c.L (.halves a b) = some (expectedShown f) ∧ b.nend ≤ a.nstart)
+  placed : ∀ a, as = [a] → a.nstart = (drawRange c).1 + ringOffset c.L (drawRange c).1 f.start ∧
+    a.nend = a.nstart + f.loc.len
 
 /-- shapes of a well-formed core inside a well-formed extent -/
 theorem core_cases {L : Int} {loc core : Loc} (hl : collOK L loc = true) (hc : collOK L core = true)
@@ -117,12 +119,15 @@ theorem good_single {c : Ctx} {f : Feat} {h gid : Int} (a : Area)
       a.nend ≤ (drawRange c).2)
     (hh : a.height = h) (hne : a.nstart < a.nend)
     (hpts : ∀ x, a.nstart ≤ x → x < a.nend → f.loc.mem (foldS c.L x) = true)
-    (hg : a.group = 0) (hs : Drawn.shown c.L (.whole a) = some (expectedShown f)) :
+    (hg : a.group = 0) (hs : Drawn.shown c.L (.whole a) = some (expectedShown f))
+    (hpl : a.nstart = (drawRange c).1 + ringOffset c.L (drawRange c).1 f.start ∧
+      a.nend = a.nstart + f.loc.len) :
     Good c f h gid [a] where
   range := by intro b hb; simp only [List.mem_singleton] at hb; subst hb; exact (areaInRange_iff _ _ _).2 hr
   height := by intro b hb; simp only [List.mem_singleton] at hb; subst hb; exact hh
   points := by intro b hb; simp only [List.mem_singleton] at hb; subst hb; exact ⟨hne, hpts⟩
   drawn := Or.inl ⟨a, rfl, hg, hs⟩
+  placed := by intro b hb; simp only [List.cons.injEq, and_true] at hb; subst hb; exact hpl
 
 theorem good_pair {c : Ctx} {f : Feat} {h gid : Int} (a b : Area)
     (hra : (drawRange c).1 ≤ a.nstart ∧ a.nstart ≤ a.start ∧ a.start ≤ a.end ∧ a.end ≤ a.nend ∧
@@ -154,6 +159,7 @@ theorem good_pair {c : Ctx} {f : Feat} {h gid : Int} (a b : Area)
     · exact ⟨hnea, hpa⟩
     · exact ⟨hneb, hpb⟩
   drawn := Or.inr ⟨a, b, rfl, hga, hgb, hs, hsep⟩
+  placed := by intro x hx; simp at hx
 
 theorem proto_core {c : Ctx} {f : Feat} (hf : featOK c f = true) (hk : f.kind = .proto) :
     collOK c.L f.loc = true ∧ collOK c.L f.core = true ∧ locationContainsOther f.loc f.core = true ∧
